@@ -29,6 +29,7 @@ var (
 	ErrOutputValueZero                     = errors.New("value is zero")
 	ErrOutputMemoTooLarge                  = errors.New("memo is too large")
 	ErrUnmarshalEmptyTransfer              = errors.New("cannot unmarshal empty bytes as transfer")
+	ErrUnmarshalTrailingBytes              = errors.New("cannot unmarshal transfer with trailing bytes")
 	_                         chain.Action = (*Transfer)(nil)
 )
 
@@ -80,11 +81,14 @@ func UnmarshalTransfer(bytes []byte) (chain.Action, error) {
 	if bytes[0] != mconsts.TransferID {
 		return nil, fmt.Errorf("unexpected transfer typeID: %d != %d", bytes[0], mconsts.TransferID)
 	}
-	if err := codec.LinearCodec.UnmarshalFrom(
-		&wrappers.Packer{Bytes: bytes[1:]},
-		t,
-	); err != nil {
+	p := &wrappers.Packer{Bytes: bytes[1:]}
+	if err := codec.LinearCodec.UnmarshalFrom(p, t); err != nil {
 		return nil, err
+	}
+	// Reject trailing bytes, so that every accepted encoding is the one
+	// produced by [Transfer.Bytes]
+	if p.Offset != len(p.Bytes) {
+		return nil, fmt.Errorf("%w: %d trailing bytes", ErrUnmarshalTrailingBytes, len(p.Bytes)-p.Offset)
 	}
 	// Ensure that any parsed Transfer instance is valid
 	// and below MaxTransferSize
